@@ -56,7 +56,7 @@ def run(ctx):
     elif quick:
         args += ["--nevents", "12000", "--ncli", "110", "--nwide", "8"]
     else:
-        args += ["--nevents", "200000", "--ncli", "900", "--nwide", "60"]
+        args += ["--nevents", "200000", "--ncli", "500", "--nwide", "40"]
     p = vlib.run(args, timeout=3300)
     dist = {}
     for line in p.stdout.split("\n"):
